@@ -59,12 +59,19 @@ def _work(ob, conn, seed, known):
                        inconclusive = ['harness crashed'], paths = 0, queries = 0, solver_s = 0, checks = 0, wall_s = out['wall_s']))
     conn.close()
 
-def run_obligations(obs, jobs, seed, known, log):
+def run_obligations(obs, jobs, seed, known, log, deadline = None):
+    """deadline (absolute time or None): the wall budget of the tier.  Once it has passed no further obligation is started (it is reported as inconclusive, 'not started'),
+    and an obligation started shortly before it gets no more than the time that is left (at least 60 s)"""
     ctx = mp.get_context('fork')
     pending = list(obs); running = {}; results = {}
     while pending or running:
+        if deadline is not None and pending and time.time() > deadline:
+            for ob in pending:
+                results[ob.id] = dict(id = ob.id, engine = ob.engine, failures = [], complete = False, inconclusive = ['not started: the wall budget of the tier (VERIF_TIER_WALL) was used up'], paths = 0, queries = 0, solver_s = 0, checks = 0, wall_s = 0, not_started = True)
+            log('  %d obligations not started: the wall budget of the tier was used up' % len(pending)); pending = []
         while pending and len(running) < jobs:
             ob = pending.pop(0)
+            if deadline is not None: ob.budget_s = max(60, min(ob.budget_s, deadline - time.time()))
             pr, pw = ctx.Pipe(duplex = False)
             p = ctx.Process(target = _work, args = (ob, pw, seed, known)); p.start(); pw.close()
             running[ob.id] = (ob, p, pr, time.time())
@@ -203,9 +210,11 @@ def main(pid, tier, jobs = None, only = None, seed = None):
     obs = mod.obligations(tier)
     if only: obs = [o for o in obs if any(s in o.id for s in only)]
     rnd = random.Random(seed); order = list(obs)
-    heavy = sorted(order, key = lambda o: -o.budget_s)          # long obligations first; seed shuffles ties
-    log('== %s tier=%s obligations=%d jobs=%d seed=%d known-findings=%s' % (pid, tier, len(obs), jobs, seed, sorted(known)))
-    results = run_obligations(heavy, jobs, seed, sorted(known), log)
+    heavy = sorted(order, key = lambda o: (o.engine != 'gate', -o.budget_s))          # gates, then long obligations first
+    # wall budget of the tier: quick has none; thorough defaults to 420 s (VERIF_TIER_WALL=<seconds>, 0 = unlimited) - what does not fit is reported as not started, never as held
+    tier_wall = float(os.environ.get('VERIF_TIER_WALL', '0' if tier == 'quick' else '420'))
+    log('== %s tier=%s obligations=%d jobs=%d seed=%d known-findings=%s%s' % (pid, tier, len(obs), jobs, seed, sorted(known), ' tier-wall=%ds' % tier_wall if tier_wall else ''))
+    results = run_obligations(heavy, jobs, seed, sorted(known), log, deadline = (t0 + tier_wall) if tier_wall else None)
     byid = {r['id']: r for r in results}
     os.makedirs(os.path.join(ROOT, 'replays', pid), exist_ok = True)
     violations = []; spurious = 0; known_hit = {}; harness_error = False; nrep = 0
@@ -342,6 +351,7 @@ def build_evidence(pid, tier, seed, mod, obs, results, counts, conf, spurious, n
                    'evaluations = solver queries discharged; non-trivial = the path condition constrains at least one symbolic input',
             samples = samples, exhaustive = False,
             obligations = nprop, discharged = proved, verdicts = counts, spurious_models = spurious,
+            tier_wall_budget_s = float(os.environ.get('VERIF_TIER_WALL', '0' if tier == 'quick' else '420')), not_started = sum(1 for r in results if r.get('not_started')),
             solver_seconds = round(tot('solver_s'), 2), solver_queries = tot('queries'), paths = tot('paths'),
             functions_encoded = src_hashes(getattr(mod, 'FUNCS', [])), bounds = getattr(mod, 'BOUNDS', {}), outside_claim = getattr(mod, 'OUTSIDE', []),
             known_findings_hit = sorted(known_hit), conformance = conf, obligations_detail = obl,
